@@ -165,14 +165,15 @@ def _unknown_type(ctx, p):
     ctx.assume(sym_and(*[t != r for r in _registered_types(g)] + [t != 0x78]))
     data = [ctx.byte(f"d{i}") for i in range(p["n"])]
     pid = ctx.byte("pid")
-    fr = _frame(ctx, g.n, 0xB0, 0x80, pid, t, data)
+    to, frm = ctx.byte("to"), ctx.byte("from")          # any addresses (a frame for another client is still a well-formed frame)
+    fr = _frame(ctx, g.n, to, frm, pid, t, data)
     got, conns, fails = _deliver_and_probe(ctx, g, fr)
     ok_n = len(got) == 2 and conns == 1 and not fails
     ctx.check(ok_n, "unknown.connection_undisturbed", detail={"delivered": len(got), "conns": conns})
     _, h, m = got[0]
     ctx.check(isinstance(m, C.UnsupportedMessage), "unknown.delivered_unchanged", detail=type(m).__name__)
-    ctx.check(sym_and(m.unsupported_id == t, m.message_id == t, bytes_eq(m.raw_data, data), h.message_id == t, h.packet_id == pid, h.message_length == p["n"]),
-              "unknown.delivered_unchanged")
+    ctx.check(sym_and(m.unsupported_id == t, m.message_id == t, bytes_eq(m.raw_data, data), h.message_id == t, h.packet_id == pid, h.message_length == p["n"],
+                      h.to_address == to, h.from_address == frm), "unknown.delivered_unchanged")
     for lab in ("free.header_as_reference", "free.task_survives", "free.recovers", "stride.prefix_decoded"):
         ctx.reach(lab)
 
